@@ -10,9 +10,9 @@ from vlib.util import check, same_objects
 
 PROP = 'C04'
 LEVEL = 'fault_enumeration'
-SHARDS = {'quick': 4, 'thorough': 16}
+SHARDS = {'quick': 8, 'thorough': 16}
 TIMEOUT = {'quick': 300, 'thorough': 3000}
-N_HIST = {'quick': 700, 'thorough': 40000}
+N_HIST = {'quick': 480, 'thorough': 30000}
 RULE = ('cases: seeded histories of 15-30 add/remove/lookup ops over a universe of 6-10 agent objects sharing 4-6 ids (distinct '
         'objects with one id) carrying component subsets, in a plain Environment, a continuous SpaceWorld and grid worlds '
         '(DiscreteWorld/LineWorld/GridWorld) with extents mixing 0 and >=1 (continuous also fractional extents below 1); after EVERY op all accessors are compared with the '
@@ -26,7 +26,7 @@ ASSUMPTIONS = ['agents\' component sets are not modified while resident (C03\'s 
                'snapshots read documented public attributes']
 FLOORS = {'quick': {'probe_dup_same': 3000, 'probe_dup_impostor': 3000, 'probe_remove_unknown': 3000, 'probe_strict_unknown': 3000,
                     'probe_oob': 5000, 'probe_oob_taken_id': 500, 'middle_removals': 500, 'edge_placements': 200,
-                    'accessor_comparisons': 10000, 'rejected_agent_without_position': 5000,
+                    'accessor_comparisons': 10000, 'rejected_agent_without_position': 5000, 'contract:Environment.registry': 50000, 'contract:SpaceWorld.containment': 50000,
                     'reach:Core.Environment.add_agent': 5000, 'reach:Environments.SpaceWorld.add_agent': 5000},
           'thorough': {'probe_oob': 300000, 'probe_dup_impostor': 150000, 'accessor_comparisons': 500000}}
 EXHAUSTIVE = {}
@@ -40,6 +40,9 @@ def fixtures():
     import ECAgent.Environments as envs
     if _K is None:
         _K = [type(f'Q{i}', (core.Component,), {'__slots__': ()}) for i in range(3)]
+        from vlib import contracts
+        contracts.attach_environment(core)
+        contracts.attach_spaceworld(envs)
     return core, envs, _K
 
 
@@ -232,9 +235,12 @@ def run_case(ctx, case):
 
 
 def run(ctx):
+    from vlib import contracts
     for i in range(N_HIST[ctx.tier]):
         if ctx.mine(i) and not ctx.full():
             ctx.run_case({'kind': 'hist', 'i': i}, run_case)
+    for k, v in contracts.EVALS.items():
+        ctx.count('contract:' + k, v)
 
 
 def replay(ctx, case):
